@@ -671,7 +671,11 @@ def gen_plumbing(rng, ill):
                                           ["table", tbl], ["default", _pv(rng)]]}
     ns = {"rec": "Namespace", "fields": [[k.replace(".", "_") or "e", _pv(rng)] for k in rng.sample(KEYS, rng.choice([1, 2, 3]))]}
     recs = {"list": [{"rec": "Wrapper", "fields": [["level", rng.choice([0, 1, 1, 2, 3])], ["name", rng.choice(KEYS)]]} for _ in range(rng.choice([0, 1, 2, 3, 4]))]}
-    env = [["d", d], ["dd", dd], ["rec", rec], ["ns", ns], ["recs", recs], ["ks", {"list": rng.sample(KEYS, rng.choice([1, 2, 3, 4]))}],
+    nobj = rng.choice([1, 2, 3, 4])
+    store = {"dict": [[i, {"rec": "Wrapper", "fields": [["level", rng.choice([0, 1, 1, 2])], ["name", rng.choice(["", "a", "a.b"])]]}] for i in range(nobj)]}
+    refs = {"list": [rng.randrange(nobj) for _ in range(rng.choice([0, 1, 2, 3, 4]))] if rng.random() < 0.4 else rng.sample(range(nobj), rng.choice(range(nobj + 1)))}
+    env = [["d", d], ["dd", dd], ["rec", rec], ["ns", ns], ["recs", recs], ["FIELDS", store], ["refs", refs],
+           ["ks", {"list": rng.sample(KEYS, rng.choice([1, 2, 3, 4]))}],
            ["c", {"const": rng.choice(CONSTS)}], ["n", rng.choice([0, 1, 2])]]
     nskeys = [k for k, _ in ns["fields"]]
     fresh = [0]
@@ -704,6 +708,12 @@ def gen_plumbing(rng, ill):
                 lambda: ["ELen", ["EKeys", ["EVar", "d"]]], lambda: ["ELen", ["EVar", rng.choice(["d", "dd"])]],
                 lambda: ["ELen", ["EVars", ["EVar", "ns"]]], lambda: ["ECopy", ["EVar", rng.choice(["d", "ks"])]],
                 lambda: ["ESortAttr", ["EVar", "recs"], "level" if not ill or rng.random() < 0.5 else "nope", rng.random() < 0.6],
+                lambda: ["ESortKey", ["EVar", "refs"], "w", rng.choice([["EAttr", ["EGetItem", ["EVar", "FIELDS"], ["EVar", "w"]], "level"], ["EVar", "w"],
+                                                                     ["ELen", ["EAttr", ["EGetItem", ["EVar", "FIELDS"], ["EVar", "w"]], "name"]]]), rng.random() < 0.4],
+                lambda: ["EAny", ["EGt", ["EAttr", ["EGetItem", ["EVar", "FIELDS"], ["EVar", "z"]], "level"], ["ENat", 1]], "z", ["EVar", "refs"]],
+                lambda: ["ERec", "Pair", [["first", val0()], ["second", rng.choice([["EVar", "refs"], val0()])]]],
+                lambda: ["ECountDistinct", ["EVar", rng.choice(["refs", "ks"])]],
+                lambda: ["EAttr", ["EGetItem", ["EVar", "FIELDS"], rng.choice([["EVar", "n"], ["EIndex", ["EVar", "refs"], 0], ["EAdd", ["EVar", "n"], ["ENat", 7]] if ill else ["EVar", "n"]])], "name"],
                 lambda: ["EAll", ["EIn", ["EVar", "z"], ["ETuple", [["ENone"], ["EConst", CONSTS[0]], ["ENat", 0]]]], "z", ["EValues", ["EVar", "d"]]],
                 lambda: cond()]
         return rng.choice(alts)()
@@ -730,7 +740,7 @@ def gen_plumbing(rng, ill):
         out = []
         for _ in range(n):
             k = rng.choice(["set", "set", "set2", "setattr", "pop", "pop", "popattr", "del", "delattr", "assign", "if", "forc", "for2", "unpack", "call", "append",
-                            "callret", "forbe"]
+                            "callret", "forbe", "while", "group", "remove", "storeset"]
                            + (["continue"] if in_loop else []))
             if k == "set":
                 out.append(["SSetPath", rng.choice(["d", "d", "dd"]), [[False, key()]], val()])
@@ -813,6 +823,26 @@ def gen_plumbing(rng, ill):
                 els = stmts(rng.choice([0, 1, 1]), depth - 1, in_loop)
                 bound.add("k")
                 out.append(["SForBE", "k", rng.choice([["EVar", "ks"], ["EAttr", ["EVar", "rec"], "items"]]), body, els])
+            elif k == "while" and depth > 0 and not in_loop:
+                body = stmts(rng.choice([0, 1]), 0, False) + ([["SIf", cond(), [["SBreak"]], []]] if rng.random() < 0.3 else []) + \
+                    [["SAssign", "i", ["EAdd", ["EVar", "i"], ["ENat", 1]]]]
+                bound.add("i")
+                out.append(["SAssign", "i", ["ENat", 0]])
+                out.append(["SWhile", WHILE_FUEL, ["EGt", rng.choice([["ELen", ["EVar", "refs"]], ["ENat", rng.choice([0, 2, 5])], ["EVar", "n"]]), ["EVar", "i"]], body])
+            elif k == "group":
+                out.append(["SAssign", "groups", ["EDict", []]])
+                out.append(["SFor", "z", ["EVar", "refs"], [["SDictAppend", "groups", rng.choice([["EAttr", ["EGetItem", ["EVar", "FIELDS"], ["EVar", "z"]], "name"],
+                                                                                                    ["EAttr", ["EGetItem", ["EVar", "FIELDS"], ["EVar", "z"]], "level"]]), ["EVar", "z"]]]])
+                bound.update(("groups", "z"))
+                out.append(["SFor2", "k", "y2", ["EItems", ["EVar", "groups"]], [["SIf", ["EGt", ["ELen", ["EVar", "y2"]], ["ENat", 1]], [["SAssign", "w", ["ERec", "Pair", [["first", ["EVar", "k"]], ["second", ["EVar", "y2"]]]]]], []]]])
+                bound.update(("k", "y2", "w"))
+            elif k == "remove":
+                out.append(["SRemove", "refs", rng.choice([["ENat", 0], ["ENat", 1], ["EIndex", ["EVar", "refs"], 0]])] if ill or rng.random() < 0.5
+                           else ["SIf", ["EIn", ["ENat", 1], ["EVar", "refs"]], [["SRemove", "refs", ["ENat", 1]]], []])
+            elif k == "storeset":
+                idx = rng.choice([["EVar", "n"], ["EIndex", ["EVar", "refs"], 0]])
+                out.append(["SSetPath", "FIELDS", [[False, idx], [True, ["EStr", "name"]]],
+                            ["EAdd", ["EStr", rng.choice(["x.", ""])], ["EAttr", ["EGetItem", ["EVar", "FIELDS"], idx], "name"]]])
             elif k == "append":
                 out.append(["SAppend", "ks", key()])
             elif k == "continue":
@@ -826,7 +856,7 @@ def gen_plumbing(rng, ill):
         body.append(["SSetPath", "d", [[False, ["EStr", "late"]]], ["ENat", 1]])
         if body[0][0] == "SAssign" and body[0][1] == "alias":
             body.append(["SSetPath", "alias", [[False, ["EStr", "x"]]], ["ENat", 2]])
-    ret = ["ETuple", [["EVar", x] for x in ("d", "dd", "rec", "ns", "ks")] + ([["ESortAttr", ["EVar", "recs"], "level", rng.random() < 0.5]] if rng.random() < 0.3 else []) + [["EVar", x] for x in sorted(bound) if x != "_" and rng.random() < 0.5 and not ill]]
+    ret = ["ETuple", [["EVar", x] for x in ("d", "dd", "rec", "ns", "ks", "FIELDS", "refs")] + ([["ESortAttr", ["EVar", "recs"], "level", rng.random() < 0.5]] if rng.random() < 0.3 else []) + [["EVar", x] for x in sorted(bound) if x != "_" and rng.random() < 0.5 and not ill]]
     body.append(["SReturn", ret])
     return {"env": env, "prog": body, "ill": ill}
 
@@ -1003,13 +1033,21 @@ def py_expr(e):
     if k == "ESplitDest":
         return _call(ast.Attribute(value=ast.Name(id="utils", ctx=ast.Load()), attr="split_dest", ctx=ast.Load()), py_expr(e[1]))
     if k == "ESortAttr":
-        lam = ast.Lambda(args=ast.arguments(posonlyargs=[], args=[ast.arg(arg="w")], kwonlyargs=[], kw_defaults=[], defaults=[]),
-                         body=ast.Attribute(value=ast.Name(id="w", ctx=ast.Load()), attr=e[2], ctx=ast.Load()))
+        lam = ast.Lambda(args=ast.arguments(posonlyargs=[], args=[ast.arg(arg="obj")], kwonlyargs=[], kw_defaults=[], defaults=[]),
+                         body=ast.Attribute(value=ast.Name(id="obj", ctx=ast.Load()), attr=e[2], ctx=ast.Load()))
         kws = [ast.keyword(arg="key", value=lam)] + ([ast.keyword(arg="reverse", value=_c(True))] if e[3] else [])
         return _call(ast.Name(id="sorted", ctx=ast.Load()), py_expr(e[1]), keywords=kws)
-    if k == "EAll":
+    if k in ("EAll", "EAny"):
         g = ast.comprehension(target=ast.Name(id=e[2], ctx=ast.Store()), iter=py_expr(e[3]), ifs=[], is_async=0)
-        return _call(ast.Name(id="all", ctx=ast.Load()), ast.GeneratorExp(elt=py_expr(e[1]), generators=[g]))
+        return _call(ast.Name(id="all" if k == "EAll" else "any", ctx=ast.Load()), ast.GeneratorExp(elt=py_expr(e[1]), generators=[g]))
+    if k == "ERec":
+        return _call(ast.Name(id=e[1], ctx=ast.Load()), *[py_expr(a) for _, a in e[2]])
+    if k == "ESortKey":
+        lam = ast.Lambda(args=ast.arguments(posonlyargs=[], args=[ast.arg(arg=e[2])], kwonlyargs=[], kw_defaults=[], defaults=[]), body=py_expr(e[3]))
+        kws = [ast.keyword(arg="key", value=lam)] + ([ast.keyword(arg="reverse", value=_c(True))] if e[4] else [])
+        return _call(ast.Name(id="sorted", ctx=ast.Load()), py_expr(e[1]), keywords=kws)
+    if k == "ECountDistinct":
+        return _call(ast.Name(id="len", ctx=ast.Load()), _call(ast.Name(id="set", ctx=ast.Load()), py_expr(e[1])))
     raise ValueError(f"unknown expression constructor {k}")
 
 
@@ -1026,6 +1064,8 @@ def py_block(ss):
 def py_stmt(s):
     k = s[0]
     if k == "SAssign":
+        if s[1] in DEFAULTDICT_VARS and s[2] == ["EDict", []]:
+            return ast.Assign(targets=[_store(s[1])], value=_call(ast.Name(id="defaultdict", ctx=ast.Load()), ast.Name(id="list", ctx=ast.Load())), lineno=0)
         return ast.Assign(targets=[_store(s[1])], value=py_expr(s[2]), lineno=0)
     if k in ("SAppend", "SExtend"):
         return ast.Expr(value=_meth(_name(s[1]), "append" if k == "SAppend" else "extend", py_expr(s[2])))
@@ -1077,14 +1117,27 @@ def py_stmt(s):
         return ast.Assign(targets=[_store(s[1])], value=call, lineno=0)
     if k == "SBreak":
         return ast.Break()
+    if k == "SWhile":
+        return ast.While(test=py_expr(s[2]), body=py_block(s[3]), orelse=[])
+    if k == "SDictAppend":
+        tgt = ast.Subscript(value=ast.Name(id=s[1], ctx=ast.Load()), slice=py_expr(s[2]), ctx=ast.Load())
+        return ast.Expr(value=_meth(tgt, "append", py_expr(s[3])))
+    if k == "SRemove":
+        return ast.Expr(value=_meth(ast.Name(id=s[1], ctx=ast.Load()), "remove", py_expr(s[2])))
     if k == "SForBE":
         return ast.For(target=_store(s[1]), iter=py_expr(s[2]), body=py_block(s[3]), orelse=[py_stmt(x) for x in s[4]], lineno=0)
     raise ValueError(f"unknown statement constructor {k}")
 
 
+DEFAULTDICT_VARS = ["groups"]        # printed as defaultdict(list): only ever assigned {} and appended to with x[k].append(v)
+WHILE_FUEL = 6
+
+
 def _walk_stmts(ss):
     for st in ss:
         yield st
+        if st[0] == "SWhile":
+            yield from _walk_stmts(st[3])
         if st[0] == "SIf":
             yield from _walk_stmts(st[2])
             yield from _walk_stmts(st[3])
@@ -1195,8 +1248,14 @@ def coq_expr(e):
         return f"(EDictGet {coq_expr(e[1])} {coq_expr(e[2])} {coq_expr(e[3])})"
     if k == "ESortAttr":
         return f"(ESortAttr {coq_expr(e[1])} {cstr(e[2])} {'true' if e[3] else 'false'})"
-    if k == "EAll":
-        return f"(EAll {coq_expr(e[1])} {cstr(e[2])} {coq_expr(e[3])})"
+    if k in ("EAll", "EAny"):
+        return f"({k} {coq_expr(e[1])} {cstr(e[2])} {coq_expr(e[3])})"
+    if k == "ERec":
+        return f"(ERec {cstr(e[1])} [" + "; ".join(f"({cstr(n)}, {coq_expr(a)})" for n, a in e[2]) + "])"
+    if k == "ESortKey":
+        return f"(ESortKey {coq_expr(e[1])} {cstr(e[2])} {coq_expr(e[3])} {'true' if e[4] else 'false'})"
+    if k == "ECountDistinct":
+        return f"(ECountDistinct {coq_expr(e[1])})"
     raise ValueError(k)
 
 
@@ -1240,6 +1299,12 @@ def coq_stmt(s):
         return f"SCallRet {cstr(s[1])} [{'; '.join(coq_stmt(x) for x in s[2])}] [{ins}] [{outs}]"
     if k == "SBreak":
         return "SBreak"
+    if k == "SWhile":
+        return f"SWhile {int(s[1])} {coq_expr(s[2])} [{'; '.join(coq_stmt(x) for x in s[3])}]"
+    if k == "SDictAppend":
+        return f"SDictAppend {cstr(s[1])} {coq_expr(s[2])} {coq_expr(s[3])}"
+    if k == "SRemove":
+        return f"SRemove {cstr(s[1])} {coq_expr(s[2])}"
     if k == "SForBE":
         return f"SForBE {cstr(s[1])} {coq_expr(s[2])} [{'; '.join(coq_stmt(x) for x in s[3])}] [{'; '.join(coq_stmt(x) for x in s[4])}]"
     raise ValueError(k)
@@ -1371,16 +1436,24 @@ def _translate(src):
     mod = ast.parse(src)
     kw = dict(attr_vars=ATTR_VARS, prims={"utils.get_nesting_level": "ENestLevel", "utils.split_dest": "ESplitDest"}, objects=True,
               consts={"argparse.SUPPRESS": "argparse.SUPPRESS", "dataclasses.MISSING": "dataclasses.MISSING"}, tables=["rec.table", "table"],
-              record_classes=REC_CLASSES)
+              record_classes=REC_CLASSES, record_ctors={"Pair": ["first", "second"]}, while_fuel=WHILE_FUEL)
     procs = {f.name: (f, minipy.Ctx(**kw), None) for f in mod.body[:-1]}
-    c = minipy.Ctx(attr_targets=["self.acc"], procs=procs, **kw)
+    c = minipy.Ctx(attr_targets=["self.acc"], procs=procs, refs=("FIELDS", {"w"}), **kw)
     return minipy.method_block(mod.body[-1], c)[0]
 
 
 def _globals(utils_ns, sub):
-    g = {"utils": utils_ns, "_minipy_sub": sub, "argparse": _argparse, "dataclasses": _dataclasses}
+    import collections
+    g = {"utils": utils_ns, "_minipy_sub": sub, "argparse": _argparse, "dataclasses": _dataclasses, "defaultdict": collections.defaultdict}
     for n in REC_CLASSES:
         g[n] = _rec_class(n)
+    pair = _rec_class("Pair")
+
+    def mk(first, second):
+        o = pair()
+        o.first, o.second = first, second
+        return o
+    g["Pair"] = mk
     return g
 
 
